@@ -1450,6 +1450,7 @@ func (e *Enc) exit() {
 	e.curReach = rx
 	vo := e.oblige("vacuity", "exit-reachable", "false", "some return must be reachable under the contract's assumptions", nil, e.fn.Pos())
 	vo.expectSat = true
+	e.applyGhostSets(e.c, e.env(e.entry, st, vars), "true")
 	env := e.env(e.entry, st, vars)
 	for i, c := range e.c.Ensures {
 		label := c.Label
@@ -1689,6 +1690,30 @@ func (w *World) namedType(name string) types.Type {
 		return o.Type()
 	}
 	return nil
+}
+
+// applyGhostSets performs the ghost field updates a contract declares, in e.cur.
+func (e *Enc) applyGhostSets(ct *Contract, env *Env, guard string) {
+	w := e.w
+	for _, g := range ct.GhostSets {
+		gt, ok := w.cs.GhostFields[g.Field]
+		if !ok {
+			panic(unsupported("ghostset of undeclared ghost field " + g.Field))
+		}
+		vt := env.evalTypeStr(gt)
+		m := w.ghostMem(g.Field, vt)
+		e.useMem(m)
+		obj := env.tr(g.Obj, nil)
+		val := env.tr(g.Val, vt)
+		cond := and(guard, env.bool(g.Cond))
+		old := stateMem(e.cur, e.useMem, m)
+		upd := sto(old, w.refOf(obj), val.S)
+		if cond != "true" {
+			upd = fmt.Sprintf("(ite %s %s %s)", cond, upd, old)
+		}
+		e.cur.mem[m.Name] = upd
+		env.cur = e.cur
+	}
 }
 
 // compact names every memory term that has grown, so that later terms refer to it by
